@@ -162,7 +162,7 @@ def reader_events(r):
         ev.append({"ev": "rblock", "case": r["case"], "b": blen, "dict": dlen})
     if "log" in r:
         for c in r["log"]:
-            ev.append(dict(c, ev="rcall", case=r["case"]))
+            ev.append(dict(c, ev="rcall", case=r["case"], st=(c.get("st") or "").replace("State", "")))
     else:
         ev.append({"ev": "rall", "case": r["case"], "n": r["deliveredLen"], "err": "eof" if r["outcome"] == "clean" else r["err"]})
     ev.append({"ev": "rend", "case": r["case"], "same": r["sameAsContent"], "prefixok": r["prefixOfContent"],
